@@ -760,6 +760,15 @@ func genScript(r *common.Rand, big bool) *scriptCase {
 	for i := 0; i < ns; i++ {
 		c.Script = append(c.Script, genBehaviour(r, c.Op != "T", true))
 	}
+	if c.Op == "W" && len(c.Script) >= 2 {
+		// exercise the cached-token re-send and the fresh-token third send
+		if r.Chance(1, 2) {
+			c.Script[0].Kind, c.Script[0].Code, c.Script[0].Chal = "S", 401, 2
+			if r.Chance(1, 2) {
+				c.Script[1].Kind, c.Script[1].Code, c.Script[1].Chal = "S", 401, common.Pick(r, []int{2, 2, 1, 0})
+			}
+		}
+	}
 	if c.Manifest != "" {
 		// a manifest push succeeds with 201 only
 		c.Script = append(c.Script, behaviour{Kind: "S", Code: 201, Read: -1})
